@@ -10,6 +10,7 @@ from ..core import Ctx, Outcome, Violation, pmap, stable_hash
 
 ID = "C05"
 LEVEL = "proof"
+EXTRA_TARGETS = ["MG.DriverEng"]
 THEOREMS = {
     "MG.Proofs.C05": [
         "MG.C05.unview_vjp_adjoint",
